@@ -119,7 +119,9 @@ func c12Hints(rng *fw.Rand) (map[gozxing.EncodeHintType]interface{}, string) {
 		}
 	}
 	if rng.Intn(4) == 0 {
-		add(gozxing.EncodeHintType_CHARACTER_SET, "CHARACTER_SET", []string{"UTF-8", "ISO-8859-1", "Shift_JIS", "SJIS", "GB2312", "Big5", "UTF-16BE", "TIS-620", "junk", "", "EUC-JP", "windows-1252", "ASCII"}[rng.Intn(13)])
+		add(gozxing.EncodeHintType_CHARACTER_SET, "CHARACTER_SET", []string{"UTF-8", "ISO-8859-1", "Shift_JIS", "SJIS", "GB2312", "Big5", "UTF-16BE", "TIS-620", "junk", "", "EUC-JP", "windows-1252", "ASCII",
+			// names the IANA registry knows, with and without a codec in x/text, and aliases that are not in the ECI table
+			"UTF-32", "UTF-7", "ISO-2022-KR", "ISO-2022-CN", "EBCDIC-US", "ISO-8859-11", "KOI8-R", "latin1", "csISOLatin1", "IBM037", "macintosh", "UTF-16LE", "utf8"}[rng.Intn(26)])
 	}
 	if rng.Intn(3) == 0 {
 		switch rng.Intn(4) {
@@ -227,7 +229,7 @@ func c12One(r *fw.Rec, ws *writerSpec) bool {
 		// kind of position (odd and even digit offsets, first, last), under each forced code set
 		n := 1 + rng.Intn(12)
 		rs := make([]rune, 0, n+3)
-		alpha := []string{"0123456789", "0123456789", "0123456789AB", "ab01"}[rng.Intn(4)]
+		alpha := []string{"0123456789", "0123456789", "0123456789AB", "ab01", "\x00\x01\x1d\x1e\x1f !~\x7fA"}[rng.Intn(5)]
 		for i := 0; i < n; i++ {
 			rs = append(rs, rune(alpha[rng.Intn(len(alpha))]))
 		}
